@@ -173,7 +173,12 @@ package bitswap
 // C06 / C10: the fetch loop itself. Whatever bytes arrive for a wanted CID - also for a CID that is being
 // fetched twice at the same time, where the block is decoded here and not in the hasher - the fetch
 // ends with a result or an error: it does not panic.
+// Registering the verifier of a CID and finding out whether another fetch of the same CID is already in
+// flight is one atomic step (LoadOrStore): with a separate look-up and store two concurrent fetches would
+// both consider themselves the original, and the one whose entry was overwritten would take its block
+// for "populated by the hasher" although no verifier of its own ever ran.
 //@ func fetch
 //@   property C06 C10
 //@   noframe
 //@   nopanic
+//@   only sync.Map).: LoadOrStore Delete
